@@ -161,6 +161,7 @@ Violated(u, log) ==
  \cup (IF KeptInPlace(u) THEN {} ELSE {"KeptInPlace"})
  \cup (IF UnmountOrder(u) THEN {} ELSE {"UnmountOrder"})
  \cup (IF UnmountOrderTrue(u, log) THEN {} ELSE {"UnmountOrderTrue"})
+ \cup (IF UnmountStrandsNothing(u, log) THEN {} ELSE {"UnmountStrands"})
  \cup (IF MountOrder(u) THEN {} ELSE {"MountOrder"})
  \cup (IF \A i \in DOMAIN u.plan : u.plan[i].ok THEN {} ELSE {"NoFailure"})
 
@@ -191,6 +192,7 @@ InvKeptInPlace       == "KeptInPlace" \notin bad
 InvUnmountOrder      == "UnmountOrder" \notin bad
 InvUnmountOrderTrue  == "UnmountOrderTrue" \notin bad
 InvMountOrder        == "MountOrder" \notin bad
+InvUnmountStrandsNothing == "UnmountStrands" \notin bad
 InvNoFailure         == "NoFailure" \notin bad
 \* with the forward planner the profile IS the log of what is mounted
 InvProfileIsLog      == KeepOrder = "forward" => current = truth
